@@ -113,7 +113,14 @@ func init() {
 			trailers[0].v = []string{"disk failure\r\ngrpc-status: 0"}
 			c.Attr("~trailer-value", "contains CR LF")
 		}
-		style := c.Choose("trailer-style", 5) // 0 TrailerPrefix, 1 declared (canonical, one per line), 2 declared in lower case, 3 declared as one "A, B" list, 4 TrailerPrefix with the name in lower case
+		style := c.Choose("trailer-style", 6) // 5 TrailerPrefix, the first application trailer set before the head and the rest after the body; 0 TrailerPrefix, 1 declared (canonical, one per line), 2 declared in lower case, 3 declared as one "A, B" list, 4 TrailerPrefix with the name in lower case
+		earlyFirst := style == 5 && len(trailers) > 0
+		if style == 5 {
+			style = 0
+			if earlyFirst {
+				c.Attr("~trailer-timing", "first application trailer before the head, the rest after the body")
+			}
+		}
 		lowerPrefix := style == 4
 		if lowerPrefix {
 			style = 0
@@ -215,6 +222,18 @@ func init() {
 				}
 				if sr == nil {
 					rep.LowerCasePrefixTrailers = true
+				}
+			}
+		}
+		if earlyFirst && len(trailers) > 0 {
+			inner := call.Mutate
+			k0 := trailers[0].k
+			call.Mutate = func(sr *wire.ServerResp, rep *world.Reply) {
+				if inner != nil {
+					inner(sr, rep)
+				}
+				if sr == nil {
+					rep.EarlyTrailerKeys = []string{k0}
 				}
 			}
 		}
@@ -339,7 +358,7 @@ func init() {
 		ID:    "C05",
 		Level: "exploration",
 		Rule: "13 RPC client form/method cells x 4 target protocols x 2 codec relations (pass-through pairs excluded), crossed with every combination up to D of: up to 2 request headers, 2 response headers and 2 trailers " +
-			"(6 names incl. -Bin and protocol-prefixed ones x 6 values: single, repeated, empty, with separators, unpadded base64), trailer declaration style (TrailerPrefix, Trailer header, Trailer header in lower case), success / error, trailers-only. " +
+			"(6 names incl. -Bin and protocol-prefixed ones x 6 values: single, repeated, empty, with separators, unpadded base64), trailer declaration style (TrailerPrefix, Trailer header, Trailer header in lower case, as a list, TrailerPrefix in lower case, TrailerPrefix with the first trailer set before the head and the rest after the body), success / error, trailers-only. " +
 			"Non-trivial = distinct scenario with at least one application key on each of request, response and trailers.",
 		Assume:      []string{"REST clients are outside the property's quantifier; REST backends have no trailers", "names that are ambiguous in the client's protocol (a response header literally called Trailer-X) are not in the alphabet", "names that are control headers of ANY of the four protocols (Grpc-Encoding, Connect-Accept-Encoding, ...) are not used as application metadata, even toward peers whose protocol does not own them"},
 		Scenarios:   []Scenario{{Name: "metadata", Fn: scn, QuickBound: 3, ThoroughBound: 5}},
